@@ -107,6 +107,11 @@ def harnesses(tier):
                    unwind=12, timeout=600, mem_gb=6, functional=True, replay=False,
                    bounds='all 5 definition block kinds, label directly or inside a paragraph, note constructor returning a note / NULL / a note without clean text',
                    desc='process_definition_block always leaves block->type == BLOCK_EMPTY (justifies excluding BLOCK_DEF_* from the writer dispatch check)'))
+    hs.append(dict(name='c02_table_separator_retyped', src='c02/tablesep.c', pool_off=True,
+                   units=[dict(src='repo:mmd.c', remove=['deindent_block', 'mmd_parse_token_chain']), dict(src='repo:writer.c', cflags=['-include', 'vh_libc.h']), 'repo:token.c', 'repo:stack.c', 'repo:object_pool.c', 'repo:char.c'],
+                   nobody_ok='*', unwind=8, timeout=600, mem_gb=6, functional=True,
+                   bounds='header of 0..2 rows + separator, optional body section, 1..3 cells per row; table at block level or first block of a list item (real recursive_parse_list_item)',
+                   desc='read_table_column_alignments retypes the separator row of every table the parser can build, also behind a re-inserted list marker (justifies that no LINE_TABLE_SEPARATOR reaches a writer)'))
     for nm, unit, fn, trees in WRITERS:
         d = dict(EXPORT=fn, TREE1=trees[0], TREE2=trees[1], TREE3=trees[2], DS_CAP=8)
         hs.append(dict(name='c02_dispatch_' + nm, src='c02/dispatch.c', defs=d, prepare=gen_dispatch, pool_off=True,
